@@ -24,6 +24,30 @@ class Pipeline(hg.Pipeline):
         shutil.copy(fake, os.path.join(self.protobin, "protoc"))
         self.verdicts = {}      # design index -> {service: verdict JSON written by fakeprotoc}
         self.first_verdicts = {}
+        self.done = {}          # design index -> hash of the design last generated there
+
+    def generate(self, designs, cmds="gen"):
+        """Like httpgen.Pipeline.generate, but a design that was already generated successfully in this
+        pipeline (same content, same index) is not generated again."""
+        import hashlib
+        todo = []
+        for i, d in enumerate(designs):
+            h = hashlib.sha1(core.canon(d).encode()).hexdigest()
+            if self.done.get(i) == h and i not in self.failed:
+                continue
+            self.done[i] = h
+            self.failed.pop(i, None)
+            self.events.pop(i, None)
+            self.first_verdicts.pop(i, None)
+            shutil.rmtree(os.path.join(self.root, "d%d" % i), ignore_errors=True)
+            todo.append((i, d))
+        with cf.ThreadPoolExecutor(max_workers=16) as ex:
+            for i, evs, _ in ex.map(lambda t: self._gen_one(t[0], t[1], cmds), todo):
+                self.events[i] = evs
+                last = evs[-1] if evs else {"ev": "genhost", "outcome": "nothing"}
+                if not evs or last["outcome"] != "ok" or last["ev"] not in cmds.split(","):
+                    self.failed[i] = (last["ev"], last.get("outcome"), last.get("detail") or last.get("errors"))
+        return self.events
 
     def _gen_one(self, i, design, cmds):
         d = os.path.join(self.root, "d%d" % i)
@@ -43,13 +67,6 @@ class Pipeline(hg.Pipeline):
         self.verdicts[i] = self._read_verdicts(d)
         self.first_verdicts.setdefault(i, self.verdicts[i])     # the table of methods that are later set aside as uncompilable
         return i, evs, None
-
-    def reset(self):
-        """Forget everything generated so far (used after re-packing the designs)."""
-        for n in os.listdir(self.root):
-            if re.match(r"d\d+$", n):
-                shutil.rmtree(os.path.join(self.root, n), ignore_errors=True)
-        self.events, self.failed, self.verdicts, self.first_verdicts = {}, {}, {}, {}
 
     def build_runners(self, designs, race=False):
         """One glue program and one binary for all designs that generated and compiled (linking the gRPC
@@ -210,21 +227,35 @@ def risky(shape):
     return shape["tagmode"] != "ok"
 
 
-def pack_designs(shapes, per_design=40, isolate=()):
+def one_design(n, shapes, grp, where):
+    types, methods = [], []
+    for off, si in enumerate(grp):
+        idx = off + 1
+        methods.append(method_design(idx, shapes[si], types))
+        where[si] = (n, "s1", "M%d" % idx, "m%d" % idx)
+    return {"api": {"name": "a%d" % (n + 1)}, "types": types, "services": [{"name": "s1", "noHTTP": True, "grpc": True, "methods": methods}]}
+
+
+def pack_designs(shapes, per_design=40):
     """Returns (designs, where) with where[shape index] = (design index, service, Go method name, design method name).
-    Shapes listed in `isolate` (and those goa is expected to refuse) get a design of their own."""
+    Shapes goa is expected to refuse get a design of their own."""
     designs, where = [], {}
-    normal = [i for i, s in enumerate(shapes) if not risky(s) and i not in isolate]
-    alone = [i for i, s in enumerate(shapes) if risky(s) or i in isolate]
+    normal = [i for i, s in enumerate(shapes) if not risky(s)]
+    alone = [i for i, s in enumerate(shapes) if risky(s)]
     groups = [normal[k:k + per_design] for k in range(0, len(normal), per_design)] + [[i] for i in alone]
     for grp in groups:
-        types, methods = [], []
-        for off, si in enumerate(grp):
-            idx = off + 1
-            methods.append(method_design(idx, shapes[si], types))
-            where[si] = (len(designs), "s1", "M%d" % idx, "m%d" % idx)
-        designs.append({"api": {"name": "a%d" % (len(designs) + 1)}, "types": types,
-                        "services": [{"name": "s1", "noHTTP": True, "grpc": True, "methods": methods}]})
+        designs.append(one_design(len(designs), shapes, grp, where))
+    return designs, where
+
+
+def isolate_designs(shapes, designs, where, broken):
+    """Give every method of the designs listed in `broken` a design of its own: the first keeps the slot of the
+    broken design, the others are appended (the other designs keep their index and content)."""
+    for b in sorted(broken):
+        grp = sorted(si for si, w in where.items() if w[0] == b)
+        designs[b] = one_design(b, shapes, grp[:1], where)
+        for si in grp[1:]:
+            designs.append(one_design(len(designs), shapes, [si], where))
     return designs, where
 
 
@@ -249,8 +280,6 @@ def randomized(datum, a, v, rng):
     import base64
     if datum is None or rng is None:
         return datum
-    free_text = a["rule"] not in ("enum", "format", "pattern") or True
-
     def text(s):
         if a["rule"] in ("enum", "format") or a["kind"] != "string":
             return s
